@@ -495,7 +495,7 @@ func (f *tmFam) Exec(r *hx.Run, op []string) string {
 		res := f.rt.errClass(err)
 		f.syncOracle(r, names, bs, pre, post, err == nil)
 		return res + " " + f.showTracked(post)
-	case "dep":
+	case "dep", "sidechain":
 		return f.execDep(r, op)
 	case "span":
 		return f.execSpan(r, op)
